@@ -200,14 +200,132 @@ func runC09(c *Ctx) {
 		isVpn := func(v ssa.Value) bool {
 			return loadsField(v, fVpn) && derivesFrom(v, sliceLocal, func(x ssa.Value) bool { return x == hostinfo })
 		}
-		n := 0
-		for _, ci := range callsIn(fn, Ref{"", "HostMap", "unlockedInnerAddHostInfo"}) {
-			n++
-			a := callArgs(ci)
-			c.Check(derivesFrom(a[1], sliceLocal, isVpn) && a[2] == hostinfo, "C09.addhost", "inner-add-args", c.instrPos(ci), "inserted under each of hostinfo.vpnAddrs", "hostmap insertion uses an address that is not one of the tunnel's certified addresses")
-		}
 		loops := findRangeLoops(fn, isVpn)
-		c.Check(n == 1 && len(loops) == 1, "C09.addhost", "loop-over-vpnAddrs", c.P.Pos(fn.Pos()), "one insertion per certified address", "hostmap insertion does not iterate hostinfo.vpnAddrs")
+		var body map[*ssa.BasicBlock]*ssa.BasicBlock
+		if len(loops) == 1 {
+			body = reachable(loops[0].Body, map[Edge]bool{{loops[0].Header, loops[0].DoneIx}: true})
+			delete(body, loops[0].Header)
+		}
+		inLoop := func(in ssa.Instruction) bool {
+			_, ok := body[in.Block()]
+			return ok
+		}
+		elemOfVpn := func(v ssa.Value) bool { return v != nil && derivesFrom(v, sliceLocal, isVpn) }
+		// keyKind (used when unlockedInnerAddHostInfo is gone): 2 = the element the single loop is at (hostinfo.vpnAddrs[i], i the
+		// loop's own index); 0 = not an address of the tunnel, or a fixed element (vpnAddrs[const]) which does not iterate;
+		// 1 = an address of the tunnel picked in a way that is not followed
+		keyKind := func(v ssa.Value) int {
+			if !elemOfVpn(v) {
+				return 0
+			}
+			if u, ok := stripValue(v).(*ssa.UnOp); ok {
+				if ia, ok := u.X.(*ssa.IndexAddr); ok && isVpn(ia.X) {
+					if _, isC := constInt(ia.Index); isC {
+						return 0
+					}
+					if in, ok := ia.Index.(ssa.Instruction); ok && len(loops) == 1 && in.Block() == loops[0].Header {
+						return 2
+					}
+				}
+			}
+			return 1
+		}
+		n := 0
+		innerRef := Ref{"", "HostMap", "unlockedInnerAddHostInfo"}
+		if c.funcQuiet(innerRef) != nil {
+			for _, ci := range callsIn(fn, innerRef) {
+				n++
+				a := callArgs(ci)
+				c.Check(elemOfVpn(a[1]) && a[2] == hostinfo, "C09.addhost", "inner-add-args", c.instrPos(ci), "inserted under each of hostinfo.vpnAddrs", "hostmap insertion uses an address that is not one of the tunnel's certified addresses")
+			}
+			c.Check(n == 1 && len(loops) == 1, "C09.addhost", "loop-over-vpnAddrs", c.P.Pos(fn.Pos()), "one insertion per certified address", "hostmap insertion does not iterate hostinfo.vpnAddrs")
+		} else {
+			// unlockedInnerAddHostInfo was inlined (or split differently): the rule is anchored on the insertions themselves. Every
+			// write of hm.Hosts and every unlockedSetHostsForAddr call made by unlockedAddHostInfo, directly or through its private
+			// helpers, must be keyed by an element of hostinfo.vpnAddrs inside the one loop over them.
+			fHosts := c.Field("", "HostMap", "Hosts")
+			cg := fix4BuildCallGraph(funcs)
+			fam := fix4ReachFamily(fix4Family(c, funcs, cg, fn), fn)
+			undecided := false
+			type ins struct {
+				in       ssa.Instruction
+				key, val ssa.Value // val nil for unlockedSetHostsForAddr (the list is C28.add's business)
+			}
+			const badKey = "hostmap insertion uses an address that is not one of the tunnel's certified addresses"
+			for _, g := range fix4FamilyList(funcs, fam) {
+				var sites []ins
+				for _, gg := range funcsWithAnon(g) {
+					eachInstr(gg, func(in ssa.Instruction) {
+						if mu, ok := in.(*ssa.MapUpdate); ok && loadsField(mu.Map, fHosts) {
+							sites = append(sites, ins{in, mu.Key, mu.Value})
+						} else if ci, ok := in.(ssa.CallInstruction); ok && matchFunc(calleeObj(ci), Ref{"", "HostMap", "unlockedSetHostsForAddr"}) {
+							sites = append(sites, ins{in, callArgs(ci)[1], nil})
+						} else {
+							return
+						}
+						if gg != g {
+							undecided = true // inside a closure: when it runs is not followed
+						}
+					})
+				}
+				for _, st := range sites {
+					if st.in.Parent() != g {
+						continue
+					}
+					if g == fn {
+						n++
+						if keyKind(st.key) == 1 {
+							c.Unknown("C09.addhost", "inner-add-args", "the key of the insertion at "+c.instrPos(st.in)+" is an address of the tunnel but not visibly the element the loop is at")
+							continue
+						}
+						c.Check(keyKind(st.key) == 2 && (st.val == nil || stripValue(st.val) == ssa.Value(hostinfo)) && inLoop(st.in), "C09.addhost", "inner-add-args", c.instrPos(st.in), "inserted under each of hostinfo.vpnAddrs", badKey)
+						continue
+					}
+					// in a private helper: key and value must be parameters that the callers, all in unlockedAddHostInfo, fill
+					kp, kOK := stripValue(st.key).(*ssa.Parameter)
+					var vp *ssa.Parameter
+					vOK := true
+					if st.val != nil {
+						vp, vOK = stripValue(st.val).(*ssa.Parameter)
+					}
+					if !kOK || !vOK || len(cg.callers[g]) == 0 {
+						undecided = true
+						continue
+					}
+					for _, site := range cg.callers[g] {
+						if site.Fn != fn {
+							undecided = true
+							continue
+						}
+						args := callArgs(site.In)
+						ki, vi := -1, -1
+						for i, p := range g.Params {
+							if p == kp {
+								ki = i
+							}
+							if vp != nil && p == vp {
+								vi = i
+							}
+						}
+						if ki < 0 || ki >= len(args) || (vp != nil && (vi < 0 || vi >= len(args))) {
+							undecided = true
+							continue
+						}
+						n++
+						if keyKind(args[ki]) == 1 {
+							c.Unknown("C09.addhost", "inner-add-args", "the key of the insertion at "+c.instrPos(site.In)+" is an address of the tunnel but not visibly the element the loop is at")
+							continue
+						}
+						c.Check(keyKind(args[ki]) == 2 && (vp == nil || stripValue(args[vi]) == ssa.Value(hostinfo)) && inLoop(site.In), "C09.addhost", "inner-add-args", c.instrPos(site.In), "inserted under each of hostinfo.vpnAddrs", badKey)
+					}
+				}
+			}
+			if undecided {
+				c.Unknown("C09.addhost", "loop-over-vpnAddrs", "unlockedInnerAddHostInfo is gone and an insertion into hm.Hosts sits in a helper whose key could not be mapped back to unlockedAddHostInfo")
+			} else {
+				c.Check(n >= 1 && len(loops) == 1, "C09.addhost", "loop-over-vpnAddrs", c.P.Pos(fn.Pos()), "one insertion per certified address", "hostmap insertion does not iterate hostinfo.vpnAddrs")
+			}
+		}
 		for _, ci := range callsIn(fn, Ref{"", "dnsServer", "Add"}) {
 			a := callArgs(ci)
 			c.Check(isVpn(a[2]), "C09.addhost", "dns-add-args", c.instrPos(ci), "DNS record lists hostinfo.vpnAddrs", "DNS record registered with addresses other than the tunnel's certified ones")
